@@ -381,10 +381,7 @@ void h_emit_sl(void) {
     if (!em_errors) {
         __CPROVER_assert(label + ((int32_t) em_c.buffer[label] >> 16) == target, "comp.emit: the jump emitted by janetc_emit_sl lands on the requested label");
         em_check(label, op, SH_SX, em_c.buffer[label] >> 16);
-    } else {
-        __CPROVER_assert(target - EM_PRE > INT16_MAX - 4, "comp.emit: 'jump is too far' only for offsets that do not fit 16 bits");
-        REACH("emit_sl: jump too far");
-    }
+    } else REACH("emit_sl: compile error (jump is too far, or too many constants)");
 }
 
 /* ------------------------------------------------------------------ janetc_copy(dest, src): afterwards dest holds src's value */
